@@ -69,6 +69,28 @@ Section E2E.
     exact (msearchid_searchid o keys vals T m vs q fuel Hb Em Ev Hf).
   Qed.
 
+  (* ... and Search / RangeGet (the values of the searchID triple) *)
+  Theorem loaded_answers_values o keys vals T m vs s (st : inst VarsT Levels) h q fuel :
+    build o keys vals = Ok T -> Bits.encode_trie T = Val m -> Bits.init_vars m = Val vs ->
+    wf_msg (to_wire m) = true -> marshal_gen (to_wire m) = Some s ->
+    (trie_height T <= fuel)%nat ->
+    let st' := run st (h ++ [OpUnmarshal s]) in
+    inst_search Levels st' (S fuel) q = search T q /\
+    inst_rangeget Levels st' (S fuel) q = rangeget T q.
+  Proof.
+    intros Hb Em Ev Hwf Hm Hf st'.
+    assert (st' = installed (to_wire m)) as ->
+      by (apply (no_residue_marshal_gen VarsT Levels ivars init_levels reset_levels conv510 conv3 h st _ _ Hwf Hm)).
+    unfold inst_search, inst_rangeget.
+    rewrite !(with_installed m vs) by (try exact Ev; intros E; unfold msearch, mrangeget, msearchid; rewrite E; reflexivity).
+    split; [exact (msearch_search o keys vals T m vs q fuel Hb Em Ev Hf)|exact (mrangeget_rangeget o keys vals T m vs q fuel Hb Em Ev Hf)].
+  Qed.
+
+  Theorem emptied_answers_values (st st' : inst VarsT Levels) q fuel :
+    emptied VarsT Levels st st' ->
+    inst_search Levels st' fuel q = Ok (None, None, None) /\ inst_rangeget Levels st' fuel q = Ok NotFound.
+  Proof. intros (Hi & _ & _). unfold inst_search, inst_rangeget, with_msg. rewrite Hi. split; reflexivity. Qed.
+
   (* an instance whose inner message is the empty one answers as the empty trie, whatever
      (stale or nil) vars and levels it still holds: the state C07's rejected loads leave *)
   Theorem emptied_answers (st st' : inst VarsT Levels) q fuel :
